@@ -15,7 +15,7 @@ LEAN_MODULES = ["Props.C15"]
 RULE = (
     "two case shapes. pair: (family register|block|section, sequence a of 1-8 elements (class id incl. a subclass "
     "edge, data list), right-hand side b: equal copy, one position changed, class-only change (incl. subclass <-> "
-    "base), proper prefix / extension, or a foreign object: 5, None, 'x', a file of another family). Observed on the "
+    "base), proper prefix / extension, the same sequence with one more BLANK default element at the end or inside, or a foreign object: 5, None, 'x', a file of another family). Observed on the "
     "real containers and files: a.data==b.data, b.data==a.data, a==b, b==a, a!=b, a==a. Judged by Spec.C15.holds "
     "(equal iff same length and pointwise same class and equal data; symmetric; reflexive; foreign -> False); each "
     "side is built through one of several container routes (plain appends; remove() of the sole element first; "
